@@ -131,3 +131,18 @@ Theorem C16_entry_count_guard_is_exact : forall cnt p,
   decode_wal_entries_z cnt p = decode_wal_entries (Z.to_nat cnt) p.
 Proof. intros cnt p. split; [apply decode_entries_z_eq | apply decode_wal_entries_z_eq]. Qed.
 Print Assumptions C16_entry_count_guard_is_exact.
+
+(* ---- the fall-back header stays usable: how far a commit may truncate a bounded file (tx.go checkTruncate) ----
+   When a commit truncates the file, the new size covers what the new commit needs AND what the previous commit - the
+   header that is selected when the new one is damaged or lost - needs. *)
+From VF Require Import Truncate TruncateProofs.
+Theorem C16_truncate_keeps_both_commits : forall lastEnd sz mmapSz maxSz pageSize e,
+  check_truncate lastEnd sz mmapSz maxSz pageSize = (e, true) ->
+  (mmapSz <= e /\ lastEnd * pageSize <= e /\ maxSz <= e /\ e < sz /\ 0 < maxSz)%Z.
+Proof. exact check_truncate_spec. Qed.
+Print Assumptions C16_truncate_keeps_both_commits.
+
+Theorem C16_truncate_clamped_refuted : exists lastEnd sz mmapSz maxSz pageSize e,
+  check_truncate_clamped lastEnd sz mmapSz maxSz pageSize = (e, true) /\ (e < lastEnd * pageSize)%Z.
+Proof. exact check_truncate_clamped_refuted. Qed.
+Print Assumptions C16_truncate_clamped_refuted.
